@@ -23,12 +23,29 @@ func scanMain() {
 	seed := flag.Int64("seed", 1, "PRNG seed")
 	traces := flag.Int("traces", 40, "collections to build")
 	maxN := flag.Int("maxn", 40, "maximum collection size")
+	big := flag.Int("big", 0, "instead of the random traces: ONE collection of this many elements (ascending), drained with page sizes around and above 1000")
+	bigFam := flag.String("bigfam", "key", "family of the big collection")
 	flag.Parse()
 	out = bufio.NewWriterSize(os.Stdout, 1<<20)
 	defer out.Flush()
 	rnd := rand.New(rand.NewSource(*seed))
+	if *big > 0 {
+		// a collection larger than every page-size constant of the code, and page sizes larger than those constants
+		db := openDB()
+		scanHistory = nil
+		bigNames = true
+		key := buildCollection(db, rnd, *bigFam, "asc", *big)
+		fmt.Fprintf(out, "# trace big scan %s asc n=%d\n", *bigFam, *big)
+		for _, ps := range []int{0, 999, 1000, 1001, *big - 1, *big + 5, 5000} {
+			for _, pat := range []string{"*", "e1*"} {
+				drain(db, *bigFam, key, pat, 0, ps)
+			}
+		}
+		db.Close()
+		return
+	}
 	fams := []string{"set", "hash", "zset", "key"}
-	orders := []string{"asc", "desc", "random", "churn", "rename", "store", "overwrite", "ascover"}
+	orders := []string{"asc", "desc", "random", "churn", "rename", "store", "overwrite", "ascover", "utf8"}
 	for t := 0; t < *traces; t++ {
 		db := openDB()
 		scanHistory = nil
@@ -38,13 +55,18 @@ func scanMain() {
 		if t < 8 {
 			n = t % 4 // the empty and tiny collections
 		}
+		utf8Names = order == "utf8"
 		key := buildCollection(db, rnd, fam, order, n)
+		utf8Names = false
 		fmt.Fprintf(out, "# trace %d scan %s %s n=%d\n", t, fam, order, n)
 		sizes := []int{0, 1, 2, 3, n, n + 1, -1}
 		if n > 6 {
 			sizes = append(sizes, 1+rnd.Intn(n), 7)
 		}
 		pats := []string{"*", "e1*", "e?", "e[0-2]?", "zz*", "e0[!1-8]"}
+		if order == "utf8" {
+			pats = []string{"*", "e*", "e?", "e[\U0001F600-\U0001F60F]", "e\U0001F601*", "?\U0001F602", "e\u00e9*"}
+		}
 		for _, ps := range sizes {
 			for _, pat := range pats {
 				ty := 0
@@ -58,7 +80,29 @@ func scanMain() {
 	}
 }
 
-func elemName(i int) string { return fmt.Sprintf("e%02d", i) }
+// utf8Names: names whose second character is a multi-byte one (2, 3 and 4 bytes in UTF-8)
+var utf8Names bool
+
+func elemName(i int) string {
+	if utf8Names {
+		switch i % 3 {
+		case 0:
+			return "e" + string(rune(0x1F600+i)) // 4 bytes
+		case 1:
+			return "e" + string(rune(0x4E00+i)) // 3 bytes
+		default:
+			return "e" + string(rune(0xE9+i)) // 2 bytes
+		}
+	}
+	if bigNames {
+		return fmt.Sprintf("e%04d", i) // byte order = numeric order beyond 100 elements
+	}
+	return fmt.Sprintf("e%02d", i)
+}
+
+// bigNames: four-digit names and sorted-set scores that follow the insertion order, so that rowid order is
+// index order in the big collections (no D10 there) and a skipped element is a failing input
+var bigNames bool
 
 // scanHistory: the operations that built the collection, `<now> <op text>` each, so that the Lean
 // judge can run the model from an empty database and decide the D10 classifier on the rowids the
@@ -83,7 +127,11 @@ func addOne(db *redka.DB, fam, key string, i int, rnd *rand.Rand) {
 		build(db, opHashSet(key, name, fmt.Sprintf("v%d", i), true))
 	case "zset":
 		// scores sometimes follow, sometimes oppose, sometimes ignore the insertion order
-		build(db, opZAdd(key, name, float64(rnd.Intn(5))))
+		if bigNames {
+			build(db, opZAdd(key, name, float64(i)))
+		} else {
+			build(db, opZAdd(key, name, float64(rnd.Intn(5))))
+		}
 	case "key":
 		switch i % 5 {
 		case 0:
@@ -126,7 +174,7 @@ func buildCollection(db *redka.DB, rnd *rand.Rand, fam, order string, n int) str
 		for i, j := 0, n-1; i < j; i, j = i+1, j-1 {
 			idx[i], idx[j] = idx[j], idx[i]
 		}
-	case "random", "churn", "rename", "store", "overwrite":
+	case "random", "churn", "rename", "store", "overwrite", "utf8":
 		rnd.Shuffle(n, func(i, j int) { idx[i], idx[j] = idx[j], idx[i] })
 	}
 	for _, i := range idx {
